@@ -39,8 +39,8 @@ LEAN = {"module": "Pygom.Props.C09", "extra_modules": ["Pygom.Lemmas.Params"],
                      "Pygom.C09.pairs_unmentioned_binds_zero", "Pygom.C09.legacy_rejected_dict_leaks_counterexample",
                      "Pygom.C09.legacy_time_symbol_commits_counterexample", "Pygom.C09.history_binding_legacy_counterexample",
                      "Pygom.Params.unrollPure_get", "Pygom.Params.lv_dset", "Pygom.Params.Inv_dset", "Pygom.Params.lv_foldl_dset"]}
-BUDGET = {"quick": {"models": 1500, "malformed": 1000, "max_ops": 8},
-          "thorough": {"models": 20000, "malformed": 12000, "max_ops": 20}}
+BUDGET = {"quick": {"models": 900, "malformed": 600, "max_ops": 8},
+          "thorough": {"models": 12000, "malformed": 8000, "max_ops": 20}}
 RULE = ("random model definitions (shared generator, lambda back-end; an extra event is added for every parameter that would "
         "not occur in the ODE) x random histories of 1-8 (thorough 1-20) assignments: list/tuple/ndarray (1-d, column), "
         "permuted pair lists (str / ODEVariable names), full and partial dicts (str / sympy.Symbol keys, any order, any "
